@@ -1,19 +1,141 @@
 (* C06 - both documents can be read back from the rendered diff.
-   Statements only; proofs live in GT.RenderProofs.  jrender / tprint / nproj: GT.RenderModel (model of
-   JSONFormatter's annotated output, tied to the code by byte-exact correspondence on every run);
-   erase / marks / toks / sim ("~": equal token lists, commas and whitespace outside strings only separate):
-   GT.RenderSpec. *)
+   Statements only; proofs live in GT.RenderProofs (all scripts) and GT.RenderScriptProofs (the model's scripts).
+   jrender / tprint / nproj: GT.RenderModel (model of JSONFormatter's annotated output, tied to the code by
+   byte-exact correspondence on every run); erase / marks / no_marks / toks / sim ("~": equal token lists, commas
+   and whitespace outside strings only separate) / reads_as (the lenient reader's result equals the document up
+   to the order of mapping members) / holds_C06: GT.RenderSpec; script: GT.ScriptModel (the model of the diff);
+   valid (C01), additive (C03): GT.ScriptSpec; priced, typed, nozero, numtext_ok: GT.EqualSpec (C02). *)
 From Coq Require Import List Bool ZArith.
-Require Import GT.PyBase GT.Data GT.ScriptSpec GT.JsonSpec GT.JsonModel GT.RenderSpec GT.RenderModel GT.RenderProofs.
+Require Import GT.PyBase GT.Data GT.ScriptSpec GT.ScriptModel GT.EqualSpec GT.EqualProofs GT.JsonSpec GT.JsonModel
+               GT.RenderSpec GT.RenderModel GT.RenderProofs GT.RenderScriptProofs.
 Import ListNotations.
 Open Scope Z_scope.
 
-(* For all trees, all scripts (valid or not) outside the D33 shape, and all layouts: deleting the inserted characters leaves, token
-   for token, the plain print of the document  nproj false a b e  that the script spells for the first side
-   (a's children where matched at a cost or removed, in script order); deleting the removed ones leaves the
-   print of  nproj true a b e.  Hypotheses: numbers print as non-empty atoms, string characters are
-   non-negative code points (tok_ok, edit_ok); no list element that is a mapping is replaced (clean: the
-   carve-out of finding D33, see C06_text_refuted_D23). *)
+(* ================================================================== the model's own scripts
+   For every oracle, every pair of well-formed documents json.loads can produce (jdoc: JSON-shaped tree, JSON-domain
+   value as in C12) and every layout: if the model of the diff produces the script e, then in the model's rendering
+   of e deleting the inserted characters leaves text that reads as the first document, deleting the removed ones
+   leaves text that reads as the second, and there are no change marks exactly when the cost is 0.
+   The ONLY other hypotheses are the classes of the three open findings:
+     typed a b          no scalar of a is Python-== to a scalar of b without being equal as data      (D4)
+     nozero a, nozero b no list consisting of leaves only contains "" or null                          (D16)
+     clean false a e    no mapping that is an element of a list is replaced by the script              (D33)
+   each necessary: C06_model_refuted_D4 / _D16 / _D33 below (model scripts; the same inputs are in corpus/C06.jsonl
+   and are reported as KNOWN-FINDING by the run). *)
+Theorem C06_model : forall O pa pb lay a b e,
+  wf a = true -> wf b = true -> jdoc a -> jdoc b -> numtext_ok a = true -> numtext_ok b = true ->
+  script O pa pb a b = OK e ->
+  typed a b = true -> nozero a = true -> nozero b = true -> clean false a e = true ->
+  reads_as (erase Inserted (jrender lay a b e)) a = true /\
+  reads_as (erase Removed (jrender lay a b e)) b = true /\
+  (no_marks (jrender lay a b e) = true <-> cost e = 0).
+Proof. exact C06_model_all. Qed.
+
+(* with the D33 carve-out stated on the first document alone (nomil a: no mapping is an element of a list) *)
+Theorem C06_model_docs : forall O pa pb lay a b e,
+  wf a = true -> wf b = true -> jdoc a -> jdoc b -> numtext_ok a = true -> numtext_ok b = true ->
+  script O pa pb a b = OK e ->
+  typed a b = true -> nozero a = true -> nozero b = true -> nomil a = true ->
+  reads_as (erase Inserted (jrender lay a b e)) a = true /\
+  reads_as (erase Removed (jrender lay a b e)) b = true /\
+  (no_marks (jrender lay a b e) = true <-> cost e = 0).
+Proof. exact C06_model_docs_all. Qed.
+
+(* the first two clauses need only the D4 and D33 carve-outs, the third only the D16 carve-out *)
+Theorem C06_model_text : forall O pa pb lay a b e,
+  wf a = true -> wf b = true -> jdoc a -> jdoc b -> script O pa pb a b = OK e ->
+  typed a b = true -> clean false a e = true ->
+  reads_as (erase Inserted (jrender lay a b e)) a = true /\
+  reads_as (erase Removed (jrender lay a b e)) b = true.
+Proof. exact C06_model_text_all. Qed.
+
+Theorem C06_model_marks : forall O pa pb lay a b e,
+  wf a = true -> wf b = true -> jdoc a -> jdoc b -> numtext_ok a = true -> numtext_ok b = true ->
+  script O pa pb a b = OK e -> nozero a = true -> nozero b = true ->
+  (no_marks (jrender lay a b e) = true <-> cost e = 0).
+Proof. exact C06_model_marks_all. Qed.
+
+(* the executable statement the harness evaluates on the implementation's decoded output (holds_C06: both
+   projections read as the documents, no marks iff equal as data) is true of the model's output *)
+Theorem C06_model_holds : forall O pa pb lay a b e ft ec obs,
+  wf a = true -> wf b = true -> jdoc a -> jdoc b -> numtext_ok a = true -> numtext_ok b = true -> consistent a b = true ->
+  script O pa pb a b = OK e ->
+  typed a b = true -> nozero a = true -> nozero b = true -> clean false a e = true ->
+  classify obs = Some (jrender lay a b e) ->
+  holds_C06 {| rc_lay := lay;
+               rc_script := {| sc_a := a; sc_b := b; sc_edit := e; sc_flat_total := ft; sc_edited_cost := ec |};
+               rc_obs := obs |} = true.
+Proof. exact C06_model_holds_all. Qed.
+
+Theorem C06_model_refuted_D4 : exists a b e,
+  hyps_C06 a b = true /\ script no_oracle [] [] a b = OK e /\ nozero a = true /\ nozero b = true /\
+  clean false a e = true /\ typed a b = false /\
+  reads_as (erase Removed (jrender (true, true) a b e)) b = false.
+Proof. exact RenderScriptProofs.C06_model_refuted_D4. Qed.
+
+Theorem C06_model_refuted_D16 : exists a b e,
+  hyps_C06 a b = true /\ script no_oracle [] [] a b = OK e /\ typed a b = true /\ clean false a e = true /\
+  nozero a = false /\ cost e = 0 /\ no_marks (jrender (true, true) a b e) = false.
+Proof. exact RenderScriptProofs.C06_model_refuted_D16. Qed.
+
+Theorem C06_model_refuted_D33 : exists a b e,
+  hyps_C06 a b = true /\ script no_oracle [] [] a b = OK e /\ typed a b = true /\ nozero a = true /\ nozero b = true /\
+  clean false a e = false /\
+  reads_as (erase Inserted (jrender (true, true) a b e)) a = false /\
+  reads_as (erase Removed (jrender (true, true) a b e)) b = false.
+Proof. exact RenderScriptProofs.C06_model_refuted_D33. Qed.
+
+(* the hypotheses are satisfiable by a non-trivial pair: {"a": [1, "x"], "b": null} against {"b": null, "a": [1, "y"]}
+   (a mapping edit with reordered members) *)
+Example C06_model_example : forall lay, exists e,
+  script no_oracle [] [] (ex_doc true 120) (ex_doc false 121) = OK e /\ cost e = 2 /\
+  reads_as (erase Inserted (jrender lay (ex_doc true 120) (ex_doc false 121) e)) (ex_doc true 120) = true /\
+  reads_as (erase Removed (jrender lay (ex_doc true 120) (ex_doc false 121) e)) (ex_doc false 121) = true /\
+  no_marks (jrender lay (ex_doc true 120) (ex_doc false 121) e) = false.
+Proof. exact RenderScriptProofs.C06_model_example. Qed.
+
+(* ================================================================== every well-priced script
+   The same for ANY script e for (a, b) - in particular the implementation's - that is valid (C01), additive (C03),
+   priced as the edit classes price their edits (EqualSpec.priced: what C02 evaluates on every implementation
+   script) and shaped (string edits are between strings, a KeyValuePairEdit lists its key edit and its value edit). *)
+Theorem C06_priced_text : forall lay a b e,
+  jdoc a -> jdoc b -> valid a b e = true -> priced a b e = true -> shaped a b e = true ->
+  typed a b = true -> clean false a e = true ->
+  reads_as (erase Inserted (jrender lay a b e)) a = true /\
+  reads_as (erase Removed (jrender lay a b e)) b = true.
+Proof. exact C06_priced_text_all. Qed.
+
+Theorem C06_priced_marks : forall lay a b e,
+  jdoc a -> jdoc b -> numtext_ok a = true -> numtext_ok b = true ->
+  valid a b e = true -> additive e = true -> priced a b e = true -> shaped a b e = true ->
+  nozero a = true -> nozero b = true ->
+  (no_marks (jrender lay a b e) = true <-> cost e = 0).
+Proof. exact C06_priced_marks_all. Qed.
+
+(* The bridge to the implementation.  thm_C06 c (RenderModel, evaluated on every case of every run; the count is in
+   the evidence) = the documents are JSON documents, the implementation's own script is valid, additive, priced and
+   shaped, and the case is outside the D4 / D16 / D33 classes; corr_C06 c = the decoded output of the real
+   JSONFormatter equals the model's rendering of that script.  For such a case the clauses of holds_C06 are theorems. *)
+Theorem C06_bridge : forall c, thm_C06 c = true -> corr_C06 c = true ->
+  holds_C06_first c = true /\ holds_C06_second c = true /\
+  exists st, classify (rc_obs c) = Some st /\ (no_marks st = true <-> cost (sc_edit (rc_script c)) = 0).
+Proof. exact C06_bridge_all. Qed.
+
+(* ... and for any valid script, mapping edits included, whose zero-cost matches pair members that are alike (same
+   key, same document up to member order) and whose string edits are between strings (Fair) *)
+Theorem C06_text : forall lay a b e,
+  tok_ok a = true -> tok_ok b = true -> clean false a e = true ->
+  valid a b e = true -> Fair a b e -> kvp2 e = true -> jdoc a -> jdoc b ->
+  reads_as (erase Inserted (jrender lay a b e)) a = true /\
+  reads_as (erase Removed (jrender lay a b e)) b = true.
+Proof. exact C06_text_all. Qed.
+
+(* ================================================================== all scripts, token level
+   For all trees, all scripts (valid or not) outside the D33 shape, and all layouts: deleting the inserted characters
+   leaves, token for token, the plain print of the document  nproj false a b e  that the script spells for the
+   first side (a's children where matched at a cost or removed, in script order); deleting the removed ones leaves
+   the print of  nproj true a b e.  Hypotheses: numbers print as non-empty atoms, string characters are non-negative
+   code points (tok_ok, edit_ok; edit_ok follows from valid and Fair / Faithful: C06_edit_ok). *)
 Theorem C06_first : forall lay a b e, tok_ok a = true -> tok_ok b = true -> edit_ok e = true ->
   clean false a e = true ->
   toks (erase Inserted (jrender lay a b e)) = ttoks (nproj false a b e).
@@ -23,6 +145,15 @@ Theorem C06_second : forall lay a b e, tok_ok a = true -> tok_ok b = true -> edi
   clean false a e = true ->
   toks (erase Removed (jrender lay a b e)) = ttoks (nproj true a b e).
 Proof. exact C06_second_all. Qed.
+
+Theorem C06_edit_ok : forall R e a b, tok_ok a = true -> tok_ok b = true -> valid a b e = true -> FaithG R a b e ->
+  edit_ok e = true.
+Proof. exact valid_edit_ok. Qed.
+
+(* the projection is the document up to the order of mapping members (same key, same canonical value, JSON-shaped) *)
+Theorem C06_nproj : forall side a b e, good a -> good b -> valid a b e = true -> Fair a b e -> kvp2 e = true ->
+  same (nproj side a b e) (if side then b else a).
+Proof. exact nproj_same. Qed.
 
 (* ttoks is the token list of the plain print, in every layout and at every indentation *)
 Theorem C06_ttoks : forall lay n t, tok_ok t = true -> toks (tprint lay n t) = ttoks t.
@@ -39,22 +170,20 @@ Theorem C06_marks_cost : forall lay a b e, tok_ok a = true -> tok_ok b = true ->
   (marks (jrender lay a b e) = [] <-> cost e = 0).
 Proof. exact C06_marks_cost_all. Qed.
 
-(* Both projections ARE the documents (up to "~"), for every valid script over ordered containers (lists,
-   leaves, strings, key/value pairs) whose zero-cost matches pair nodes that print alike.
-   PARTIAL: for scripts containing mapping edits (KMultiSet / KFixedDict) C06_first / C06_second / C06_reads give
-   the exact document each projection spells and reads as (members in script order); that this document equals
-   a resp. b up to the order of mapping members (jv_equiv (value_of (nproj side a b e)) (value_of a)) is not
-   proved - it is evaluated on every implementation output by holds_C06. *)
+(* Ordered containers (lists, leaves, strings, key/value pairs): both projections are the plain prints of the documents
+   TOKEN FOR TOKEN ("~"), for every valid script whose zero-cost matches pair nodes that print alike.  (The name is
+   kept from the first round; the statement is complete for ordered scripts and no longer assumes edit_ok.  With
+   mapping edits the members appear in script order, so "~" is replaced by reads_as: C06_text / C06_model above.) *)
 Theorem C06_text_partial : forall lay a b e,
-  tok_ok a = true -> tok_ok b = true -> edit_ok e = true -> clean false a e = true ->
+  tok_ok a = true -> tok_ok b = true -> clean false a e = true ->
   valid a b e = true -> Faithful a b e -> ordered_only e = true -> kvp2 e = true ->
   sim (erase Inserted (jrender lay a b e)) (tprint lay 0 a) /\
   sim (erase Removed (jrender lay a b e)) (tprint lay 0 b).
-Proof. exact C06_ordered_partial_all. Qed.
+Proof. exact C06_ordered_valid_all. Qed.
 
 (* The corollaries through C12 (jparse_lenient = C12's strict reader on the comma-repaired token list):
    every projection reads as the document the script spells for that side; for valid scripts over ordered
-   containers that is the document itself.  json-shaped trees (jshape), JSON-domain values (jwfb false). *)
+   containers that is the document itself, member for member. *)
 Theorem C06_reads : forall side lay a b e, tok_ok a = true -> tok_ok b = true -> edit_ok e = true ->
   clean false a e = true ->
   jshape (nproj side a b e) = true -> is_kvp (nproj side a b e) = false ->
@@ -63,16 +192,16 @@ Theorem C06_reads : forall side lay a b e, tok_ok a = true -> tok_ok b = true ->
 Proof. exact C06_reads_all. Qed.
 
 Theorem C06_reads_ordered_partial : forall lay a b e,
-  tok_ok a = true -> tok_ok b = true -> edit_ok e = true -> clean false a e = true ->
+  tok_ok a = true -> tok_ok b = true -> clean false a e = true ->
   valid a b e = true -> Faithful a b e -> ordered_only e = true -> kvp2 e = true ->
   (jshape a = true -> is_kvp a = false -> jwfb false (value_of a) = true ->
    jparse_lenient (erase Inserted (jrender lay a b e)) = Some (value_of a)) /\
   (jshape b = true -> is_kvp b = false -> jwfb false (value_of b) = true ->
    jparse_lenient (erase Removed (jrender lay a b e)) = Some (value_of b)).
-Proof. exact C06_reads_ordered_all. Qed.
+Proof. exact C06_reads_ordered_valid_all. Qed.
 
-(* necessity of the hypotheses = the open findings: D33 (a mapping replaced as an element of a list is printed
-   from -> to -> to), D4 (zero-cost match of 1 and 1.0) and D16 (zero-cost removal) *)
+(* necessity of the hypotheses at the script level = the open findings: D33 (a mapping replaced as an element of a
+   list is printed from -> to -> to), D4 (zero-cost match of 1 and 1.0) and D16 (zero-cost removal) *)
 Theorem C06_text_refuted_D23 :
   exists lay a b e, tok_ok a = true /\ tok_ok b = true /\ edit_ok e = true /\ valid a b e = true /\
                     Faithful a b e /\ ordered_only e = true /\ kvp2 e = true /\ additive e = true /\
@@ -99,6 +228,15 @@ Example C06_hypotheses_example :
   cost ex_e <> 0 /\ marks (jrender (false, false) ex_a ex_b ex_e) <> [].
 Proof. exact C06_hypotheses_inhabited. Qed.
 
+Print Assumptions C06_model.
+Print Assumptions C06_model_docs.
+Print Assumptions C06_model_text.
+Print Assumptions C06_model_marks.
+Print Assumptions C06_model_holds.
+Print Assumptions C06_priced_text.
+Print Assumptions C06_priced_marks.
+Print Assumptions C06_bridge.
+Print Assumptions C06_text.
 Print Assumptions C06_first.
 Print Assumptions C06_second.
 Print Assumptions C06_marks.
